@@ -3,7 +3,7 @@ import Comdex.Model.Liquidation
 /-! Driver plug-in for C09 (liquidation safe and live).
 
 Lines (tab separated; `k=v` fields, lists `;`-separated with `:` inside):
-  liq.begin  <v1|v2> <batch> <probe>            probe = store id the real generation-2 borrow sweep writes its offset to
+  liq.begin  <v1|v2> <batch>
   liq.env    A=<id:decimals:price|->…  P=<id:app:minCr:assetIn:assetOut:oracle:fixed>…  APP=<id:esm:kill:wl2:dutch2:wl1:auc1>…
   liq.block  <height> <pre…> => <ok|panic> <post…>
   liq.msg    <a> <b> <pre…> => <ok|err|panic> <post…>      v2: a = liqType, b = id;  v1: a = app id, b = vault id
@@ -12,8 +12,10 @@ Lines (tab separated; `k=v` fields, lists `;`-separated with `:` inside):
   liq.br.single     assetIn assetOut amountIn debt <raw|err|panic> real lend CalculateCollateralizationRatio (current env)
 pre  := V=<id:app:prod:in:out:int:fee>… C= O=<key:off>… VB= AB= LID= AID= PB= B=<borrow>…
 post := V=<ids,> C= O= VB= AB= LID= AID= NL=<id:orig:app:amt:isBorrow>… NA=<id:locked:asset:amt>… PB= BL=<ids,>
-Monitors (on REAL pre/post): safe_never_seized, slice_bounds, seized_within_bound, seized_within_two_sweeps,
-seize_exact_collateral, one_auction, store_order. -/
+Monitors (on REAL pre/post): safe_never_seized, slice_bounds, seized_within_bound, seized_within_two_sweeps (D9: the
+property's literal bound, reported under this name only while model and code have agreed on every line of the sequence;
+after a divergence it is `seized_late_after_divergence`), gen1_app3_offset_collision (generation 1, vault app id =
+lendtypes.AppID: both liveness monitors are reported under this name), seize_exact_collateral, one_auction, store_order. -/
 -- DRIVER: prefix=liq ns=Comdex.Drv.Liquidation
 namespace Comdex.Drv.Liquidation
 open Comdex Comdex.Liquidation Comdex.Line
@@ -28,7 +30,7 @@ deriving Inhabited
 structure St where
   gen : Nat := 2
   batch : Nat := 1
-  fix : Bool := false
+  diverged : Bool := false   -- a DIFF was printed earlier in this sequence
   env : Env := {}
   blk : Nat := 0
   tracks : List Track := []
@@ -213,7 +215,11 @@ def liveMonitors (st : St) (w : World) (r : Post) : List Track × List String :=
       let off := (w.offsets.get? (offKey st.gen v)).getD 0
       let isStart := (sweepBounds n off st.batch).1 == 0
       let starts := if isStart then t.starts + 1 else t.starts
-      let m2 := if starts ≥ 3 && !t.reported then [s!"seized_within_two_sweeps"] else []
+      let collide := st.gen == 1 && v.app == lendAppId
+      let name2 := if collide then "gen1_app3_offset_collision" else
+                   if st.diverged then "seized_late_after_divergence" else "seized_within_two_sweeps"
+      let name1 := if collide then "gen1_app3_offset_collision" else "seized_within_bound"
+      let m2 := if starts ≥ 3 && !t.reported then [name2] else []
       let pre := ids.take (i+1)
       let armed := match t.armed with
         | some (d, p) => if p == pre then some (d, p) else none
@@ -226,7 +232,7 @@ def liveMonitors (st : St) (w : World) (r : Post) : List Track × List String :=
       let (armed, m1) := match armed with
         | some (d, p) =>
           if d == st.blk then
-            (none, if r.ids.contains v.id && !foreignShift then ["seized_within_bound"] else [])
+            (none, if r.ids.contains v.id && !foreignShift then [name1] else [])
           else (some (d, p), [])
         | none => (none, [])
       go rest (i+1) ({ id := v.id, starts := starts, armed := armed, reported := t.reported || starts ≥ 3 } :: accT) (m1.reverse ++ m2.reverse ++ accM)
@@ -242,7 +248,7 @@ def handleBlock (st : St) (seq : String) (fs : List String) : St × List String 
   | outcome :: postF =>
     match parsePre preF, parsePost postF with
     | some w, some r =>
-      let model := if st.gen == 2 then blockV2 st.fix st.env st.batch w else blockV1 st.env st.batch w
+      let model := if st.gen == 2 then blockV2 st.env st.batch w else blockV1 st.env st.batch w
       let consistent := w.counter == w.vaults.length
       let diffs : List String :=
         match model with
@@ -250,7 +256,7 @@ def handleBlock (st : St) (seq : String) (fs : List String) : St × List String 
           if outcome == "panic" then [] else
           -- between length and capacity of the Go slice the real code reads phantom entries instead of panicking
           if consistent then [s!"DIFF\t{seq}\tmodel=panic\timpl={outcome}"] else []
-        | .ok w' | .aborted w' =>
+        | .ok w' =>
           if outcome == "panic" then [s!"DIFF\t{seq}\tmodel=ok\timpl=panic"] else
           match diffPost (postOf w') r with
           | some d => [s!"DIFF\t{seq}\t{d}"]
@@ -259,14 +265,16 @@ def handleBlock (st : St) (seq : String) (fs : List String) : St × List String 
                 if outcome != "panic" && consistent &&
                    r.offsets.any (fun o => w.offsets.get? o.1 != some o.2 && o.2 > max w.counter w.borrows.length) then ["slice_bounds"] else []
       let eff := if outcome == "panic" then [] else effectMonitors st.env w r
-      let (tracks, live) := if outcome == "panic" then (st.tracks, []) else liveMonitors st w r
+      let (tracks, live) := if outcome == "panic" then (st.tracks, [])
+                            else liveMonitors { st with diverged := st.diverged || !diffs.isEmpty } w r
       -- ids are monotone and keys big-endian: a position that was not there after the previous block sorts after all seen so far
       let ids := w.vaults.map (·.id)
       let fresh := ids.filter (fun i => !st.lastIds.contains i)
       let ord := if st.blk > 0 && fresh.any (· ≤ st.maxId) then ["store_order"] else []
       let mons := (sl ++ eff ++ live ++ ord).map fun m => s!"MON\t{seq}\t{m}"
+      -- the liveness monitors judge with the state in which a divergence on THIS line is already known
       ({ st with blk := st.blk + 1, tracks := tracks, lastIds := if outcome == "panic" then ids else r.ids,
-                 maxId := ids.foldl max st.maxId }, diffs ++ mons)
+                 maxId := ids.foldl max st.maxId, diverged := st.diverged || !diffs.isEmpty }, diffs ++ mons)
     | _, _ => (st, [s!"BAD\t{seq}\tcannot parse block"])
   | [] => (st, [s!"BAD\t{seq}\tblock without =>"])
 
@@ -290,7 +298,7 @@ def handleMsg (st : St) (seq : String) (a b : Nat) (fs : List String) : St × Li
           | some d => [s!"DIFF\t{seq}\t{d}"]
           | none => []
       let mons := (effectMonitors st.env w r).map fun m => s!"MON\t{seq}\t{m}"
-      (st, diffs ++ mons)
+      ({ st with diverged := st.diverged || !diffs.isEmpty }, diffs ++ mons)
     | _, _ => (st, [s!"BAD\t{seq}\tcannot parse msg"])
   | [] => (st, [s!"BAD\t{seq}\tmsg without =>"])
 
@@ -298,7 +306,7 @@ def showR (o : Option Dec) : String := match o with | some d => toString d | non
 
 def handle (st : St) (seq : String) (f : List String) : St × List String :=
   match f with
-  | ["liq.begin", g, b, p] => ({ gen := if g = "v1" then 1 else 2, batch := nat! b, fix := p = "1" }, [])
+  | ["liq.begin", g, b] => ({ gen := if g = "v1" then 1 else 2, batch := nat! b }, [])
   | "liq.env" :: fs =>
     match parseEnv fs with
     | some e => ({ st with env := e }, [])
